@@ -3,6 +3,7 @@
 package limit
 
 import (
+	"lunar/engine/verifhook"
 	"lunar/toolkit-core/clock"
 	"lunar/toolkit-core/logging"
 	"sync"
@@ -38,6 +39,7 @@ func (state *RateLimitState) TryToIncrement(
 	}
 
 	groupedState := state.getLimiterState(requestArgs)
+	verifhook.Yield("limit.state_obtained")
 	return groupedState.TryToIncrement(windowData), nil
 }
 
